@@ -1,6 +1,231 @@
 package c20
 
-import "verifharness/core"
+import (
+	"fmt"
+	"math/rand"
+	"strings"
+	"sync"
+	"time"
 
-// runLive is provided by the real-loop lab (see live_impl.go once built).
-var runLive = func(c *core.Ctx, r *core.Result) { r.Note("live part pending") }
+	"verifharness/core"
+	"verifharness/fixwire"
+	"verifharness/lab"
+	"verifharness/live"
+)
+
+// Live part: real Acceptor with real timers, HeartBtInt 1 s taken from the peer's Logon.
+// Oracles are one-sided and load-proof: from the engine's own SendingTime stamps (ms) a Heartbeat
+// is never stamped earlier than HeartBtInt-5ms after the previous outbound stamp; a TestRequest
+// never earlier than 1.2*HeartBtInt-5ms after the harness sent its last inbound frame; the
+// dead-peer disconnect never earlier than 2.4*HeartBtInt-5ms after it. Bounded liveness (a
+// Heartbeat does appear on an idle link, the silent peer is eventually dropped) is judged against
+// control timers of the harness armed in the same process for 8x the nominal delay, twice in a
+// row; a miss is re-run alone and only a second miss is a violation.
+func runLive(c *core.Ctx, r *core.Result) {
+	runs := c.N(8, 96)
+	sem := make(chan struct{}, 8)
+	var wg sync.WaitGroup
+	for i := 0; i < runs; i++ {
+		wg.Add(1)
+		sem <- struct{}{}
+		go func(i int) {
+			defer wg.Done()
+			defer func() { <-sem }()
+			v := liveScenario(c, r, i, c.Rand("live", i))
+			if strings.HasPrefix(v, "miss:") {
+				// re-run alone
+				sem2 := make(chan struct{}, 1)
+				sem2 <- struct{}{}
+				v2 := liveScenario(c, r, i, c.Rand("live", i))
+				if strings.HasPrefix(v2, "miss:") {
+					r.Violate("C20/live/"+strings.Fields(v2)[1], v2, map[string]interface{}{"run": i, "first": v, "second": v2})
+				} else {
+					r.Inconcl("live run %d missed once (%s) and passed when re-run", i, v)
+				}
+			}
+		}(i)
+	}
+	wg.Wait()
+}
+
+func parseTS(s string) (time.Time, bool) {
+	for _, l := range []string{"20060102-15:04:05.000", "20060102-15:04:05"} {
+		if t, err := time.Parse(l, s); err == nil {
+			return t, true
+		}
+	}
+	return time.Time{}, false
+}
+
+func liveScenario(c *core.Ctx, r *core.Result, idx int, rng *rand.Rand) string {
+	rec := &live.Recorder{}
+	begin := core.Pick(rng, "FIX.4.2", "FIX.4.4")
+	tag := fmt.Sprintf("C20x%dx%d", idx, rng.Intn(1<<20))
+	kind := core.Pick(rng, "idle-answering", "silent")
+	const hbi = time.Second
+	const slack = 5 * time.Millisecond
+	var eng *live.Engine
+	var err error
+	port := 0
+	for try := 0; try < 3; try++ {
+		port = live.FreePort()
+		if eng, err = live.StartAcceptor(live.Options{Who: "engine", Begin: begin, Sender: "E" + tag, Target: "P" + tag, Port: port, R: rec}); err == nil {
+			break
+		}
+	}
+	if err != nil {
+		r.Inconcl("live run %d: cannot start acceptor: %v", idx, err)
+		return "inconclusive"
+	}
+	defer eng.Stop()
+	p, err := live.Dial(port, rec, begin, "P"+tag, "E"+tag)
+	if err != nil {
+		r.Inconcl("live run %d: %v", idx, err)
+		return "inconclusive"
+	}
+	defer p.Close()
+	r.Eval(1)
+	p.Logon(1)
+	lastInbound := time.Now().UTC()
+	if _, ok := p.WaitFor(live.IsType("A"), 15*time.Second); !ok {
+		r.Inconcl("live run %d: no Logon reply", idx)
+		return "inconclusive"
+	}
+	fail := func(sig, f string, a ...interface{}) {
+		msg := fmt.Sprintf(f, a...)
+		r.Violate("C20/live/"+sig, msg+fmt.Sprintf("; real run loop, scenario %s, %s", kind, begin), map[string]interface{}{"run": idx, "scenario": kind, "message": msg})
+	}
+	// control timers: 8x the nominal delay, twice
+	control := func(nominal time.Duration) <-chan struct{} {
+		ch := make(chan struct{})
+		go func() {
+			<-time.After(8 * nominal)
+			<-time.After(8 * nominal)
+			close(ch)
+		}()
+		return ch
+	}
+	var prevOut time.Time
+	sawHB, sawTR := 0, 0
+	noteOut := func(fs fixwire.Fields) {
+		ts, ok := parseTS(first(fs.Get(52)))
+		t, _ := fs.Get(35)
+		if ok {
+			switch {
+			case t == "0" && !fs.Has(112):
+				sawHB++
+				if !prevOut.IsZero() && ts.Sub(prevOut) < hbi-slack {
+					fail("heartbeat-too-early", "a Heartbeat is stamped %v after the previous outbound message (interval %v)", ts.Sub(prevOut), hbi)
+				}
+			case t == "1":
+				sawTR++
+				if ts.Sub(lastInbound.Truncate(time.Millisecond)) < time.Duration(1.2*float64(hbi))-slack {
+					fail("testrequest-too-early", "a TestRequest is stamped %v after the last inbound message was sent (1.2 intervals = %v)", ts.Sub(lastInbound), time.Duration(1.2*float64(hbi)))
+				}
+			}
+			prevOut = ts
+		}
+	}
+	switch kind {
+	case "idle-answering":
+		// the peer only answers TestRequests (late); the engine must heartbeat on its own
+		ctl := control(hbi)
+		deadline := time.After(3500 * time.Millisecond)
+		gotHB := false
+	loop:
+		for {
+			select {
+			case fs := <-p.Frames:
+				noteOut(fs)
+				if t, _ := fs.Get(35); t == "0" && !fs.Has(112) {
+					gotHB = true
+				}
+				if t, _ := fs.Get(35); t == "1" {
+					id, _ := fs.Get(112)
+					time.Sleep(time.Duration(rng.Intn(400)) * time.Millisecond)
+					lastInbound = time.Now().UTC()
+					p.Msg("0", 0, nil, fixwire.Fields{lab.F(112, id)})
+				}
+			case <-deadline:
+				break loop
+			}
+		}
+		if !gotHB {
+			// wait for the controls before calling it a miss
+			select {
+			case fs := <-p.Frames:
+				noteOut(fs)
+				if t, _ := fs.Get(35); t == "0" {
+					gotHB = true
+				}
+			case <-ctl:
+			}
+			if !gotHB {
+				return "miss: no-heartbeat no Heartbeat appeared on an idle link although two control timers of 8 intervals each have fired"
+			}
+		}
+		if sawTR > 0 {
+			r.Count("live.testrequests_answered", sawTR)
+		}
+	case "silent":
+		// total silence: TestRequest after >=1.2 s, disconnect after >=2.4 s, with notification
+		ctl := control(time.Duration(2.4 * float64(hbi)))
+		closedAt := time.Time{}
+	loop2:
+		for {
+			select {
+			case fs := <-p.Frames:
+				noteOut(fs)
+			case <-ctl:
+				break loop2
+			default:
+				done := false
+				for _, e := range rec.Events() {
+					if e.Kind == "closed" {
+						done = true
+					}
+				}
+				if done {
+					closedAt = time.Now().UTC()
+					break loop2
+				}
+				time.Sleep(5 * time.Millisecond)
+			}
+		}
+		// drain frames that arrived before the close
+		for {
+			select {
+			case fs := <-p.Frames:
+				noteOut(fs)
+				continue
+			default:
+			}
+			break
+		}
+		if closedAt.IsZero() {
+			return "miss: no-disconnect the silent peer was not disconnected although two control timers of 8 x 2.4 intervals each have fired"
+		}
+		if d := closedAt.Sub(lastInbound); d < time.Duration(2.4*float64(hbi))-slack {
+			fail("disconnect-too-early", "the silent peer was disconnected %v after its last message (2.4 intervals = %v)", d, time.Duration(2.4*float64(hbi)))
+		}
+		if sawTR == 0 {
+			fail("no-testrequest", "the silent peer was disconnected without a TestRequest having been sent first")
+		}
+		time.Sleep(30 * time.Millisecond)
+		lo := false
+		for _, e := range rec.Events() {
+			if e.Kind == "OnLogout" {
+				lo = true
+			}
+		}
+		if !lo {
+			fail("no-logout-notification", "the dead-peer disconnect did not notify the application")
+		}
+	}
+	r.Count("live.heartbeats_seen", sawHB)
+	r.Count("live.testrequests_seen", sawTR)
+	r.Nontrivial(fmt.Sprintf("live|%s|%s|hb%d|tr%d", kind, begin, sawHB, sawTR))
+	return "held"
+}
+
+func first(s string, _ bool) string { return s }
